@@ -303,7 +303,7 @@ def grad_diff(ans, a, n=1, axis=-1):
         return helper(undiff(g), n - 1)
 
     if n >= anp.shape(a)[axis]:  # the output is empty: nothing flows back
-        return lambda g: anp.zeros(anp.shape(a))
+        return lambda g: anp.zeros(anp.shape(a), dtype=anp.result_type(a))
     return lambda g: helper(g, n)
 
 
